@@ -231,6 +231,20 @@ def failing_creation_scripts(name0):
     return out, n
 
 
+def free_race_scripts(name0):
+    """an opener is stopped between its two shm_open calls (exclusive creation refused, plain open not yet made, ...) while the owner frees the
+    segment: whatever the opener's call returns, afterwards the name is free and the next p_shm_new makes a fresh segment of the requested size"""
+    out = []
+    n = name0
+    for k in (1, 2, 3):
+        n += 1
+        lines = ["P 1 shmnew 1 %d 4096" % n, "P 1 shmw 1 0 55", "B 2 shmnew 1 %d 4096" % n] + ["S 2"] * k + ["P 1 shmfree 1", "F 2", "P 2 shmfree 1",
+                 "P 3 shmnew 1 %d 12288" % n, "P 3 shmsize 1", "P 3 shmr 1 0", "P 3 shmw 1 12287 9", "P 3 shmr 1 12287", "P 3 shmlock 1", "P 3 shmunlock 1", "P 3 shmfree 1",
+                 "P 1 shmnew 3 %d 16" % n, "P 1 shmown 3", "P 1 shmfree 3", "obs", "epoch"]
+        out.append(lines)
+    return out, n
+
+
 def free_crash_scripts(name0):
     out = []
     n = name0
@@ -284,6 +298,9 @@ def run(ctx):
     fcr, nmax = failing_creation_scripts(nmax)
     for lines in fcr:
         scripts.append(("failcreate", lines, []))
+    frs, nmax = free_race_scripts(nmax)
+    for lines in frs:
+        scripts.append(("freerace", lines, []))
     inj, nmax = inject_scripts(nmax)
     for lines in inj:
         scripts.append(("inject", lines, []))
